@@ -69,9 +69,26 @@ def algebra(ctx, world, ev, pair, label):
                     la, lb = ip.elem(Ea), ip.elem(Eb)
                     for oa in session.rets(fa):
                         for ob in session.rets(fb):
+                            if not consistent(oa, ob, len(sa.state.pc), len(sb.state.pc), a, b):
+                                continue      # infeasible pair: both ends were given the same inputs
                             nkeys += 1
                             agree(ctx, ip, label, a, b, oa, ob, out_a, out_b, la, lb, G)
     ctx.require(nkeys >= 1, "%s: no pair of key-returning paths" % label)
+
+
+def consistent(oa, ob, base_a, base_b, a, b):
+    """Conditions over the shared inputs (password, identities, group) must have the same
+    polarity on both ends: the two ends were created with matching inputs."""
+    private = {a.msg, b.msg, a.syms["entropy_f"], b.syms["entropy_f"]}
+
+    def shared(o, base):
+        out = {}
+        for (t, p, _) in o.state.pc[base:]:
+            if not any(x in private for x in subterms(t)):
+                out[t._key] = p
+        return out
+    ca, cb = shared(oa, base_a), shared(ob, base_b)
+    return all(cb.get(k, p) == p for k, p in ca.items())
 
 
 def agree(ctx, ip, label, a, b, oa, ob, out_a, out_b, la, lb, G):
